@@ -68,7 +68,7 @@ SCLAUSE = {1: "connected-exactly-once", 2: "disconnected-once-after-connected", 
            5: "quiescence(truthful/listed/exactly-once)", 6: "stuck", 7: "stream-before-connected"}
 VNAMES = {31: "addConn.call", 32: "addConn.ret", 9: "Connected.begin", 10: "Connected.end", 11: "Disconnected.begin",
           12: "Disconnected.end", 33: "transportClose.begin", 34: "transportClose.end", 35: "AcceptStream", 36: "Conn.Close.call",
-          14: "Pub", 37: "Swarm.Close.call", 38: "Swarm.Close.ret", 39: "SeenListed", 40: "ObsConnectedness", 41: "ObsListed",
+          14: "Pub", 37: "Swarm.Close.call", 38: "Swarm.Close.ret", 42: "Swarm.Close(2nd).call", 43: "Swarm.Close(2nd).ret", 39: "SeenListed", 40: "ObsConnectedness", 41: "ObsListed",
           15: "Quiesce", 16: "Stuck"}
 VCLAUSE = {1: "connected-exactly-once", 2: "disconnected-once-after-connected", 3: "swarm-close-waits", 4: "no-repeated-state",
            5: "quiescence(truthful: last event / Connectedness / listed conns)", 6: "stuck", 7: "stream-loop-before-connected",
@@ -112,7 +112,7 @@ def vshow(lb):
         return "%s(p%d,%s)" % (n, x, CST.get(y, y))
     if code == 41:
         return "%s(c%d,%s)" % (n, x, "yes" if y else "no")
-    if code in (37, 38, 15, 16):
+    if code in (37, 38, 42, 43, 15, 16):
         return n
     return "%s(c%d)" % (n, x)
 
@@ -240,7 +240,8 @@ if __name__ == "__main__":
              "swarm-level LTS SwModel.v): a real Swarm (NewSwarm + Swarm.addConn fed with harness conns of four classes: direct, "
              "relayed+limited, relayed+UNLIMITED, direct-but-limited), a gateable recording event emitter (stalled subscriber), a "
              "Notifiee with gates, transport Close that can block; in a synctest bubble with forced schedules (all schedules of the "
-             "class pairs and of slow-close configurations, Swarm.Close with a backlog of events of 2-6 peers, random configurations) "
+             "class pairs and of slow-close configurations, Swarm.Close with a backlog of events of 2-6 peers, TWO overlapping Swarm.Close "
+             "calls with the first parked behind a gated callback / subscriber / transport Close, random configurations) "
              "and, under the real scheduler, addConn stalled right after the insert into conns.m (the harness holds "
              "s.directConnNotifs) racing Swarm.Close / Conn.Close. "
              "WHOLE-SWARM runs (kind 7, monitor only, real scheduler): a real Swarm with a TCP listener, two recording Notifiees "
